@@ -29,12 +29,12 @@ CLAIMED = {
 ENGINES = [
  dict(name="tlc-trace", path="/verif/spec/TraceLR.tla", kind_free_text="TLA+ modules Grammar, Analyses, LR1, Pager, StateTable, LRParse, CPCTPlus, CanonTable + trace specification TraceLR and bounded models MC_Pager, MC_CPCT, MC_Recover, checked with TLC against NDJSON recorded by harness/vh (lr) from the real crates"),
  dict(name="tlc-lexer", path="/verif/spec/Lexer.tla", kind_free_text="Lexer.tla, MC_Lexer (bounded model), TraceLex (trace specification)"),
- dict(name="tlc-ctbuild", path="/verif/spec/CTBuild.tla", kind_free_text="CTBuild.tla, MC_CTBuild (bounded model), TraceCT (trace specification) over histories run by vh ctstep"),
+ dict(name="tlc-ctbuild", path="/verif/spec/CTBuild.tla", kind_free_text="CTBuild.tla, MC_CTBuild (bounded model), CTBuildProof.tla (TLAPS: any history length), TraceCT (trace specification) over histories run by vh ctstep"),
  dict(name="tlc-nlc", path="/verif/spec/NewlineCache.tla", kind_free_text="NewlineCache.tla, Diagnostics.tla, MC_NewlineCache, TraceNLC"),
- dict(name="tlc-width", path="/verif/spec/Width.tla", kind_free_text="Width.tla, MC_Width, TraceWidth; WidthApa.tla (Apalache)"),
- dict(name="tlc-src", path="/verif/spec/YaccSrc.tla", kind_free_text="YaccSrc.tla, LexSrc.tla, Totality.tla, Header.tla, LexParse.tla, YaccParse.tla, MarkMap.tla with trace specifications TraceYSrc, TraceLSrc, TraceTotal, TraceHeader, TraceLexParse, TraceYaccParse, TraceMarkMap and bounded models MC_Header, MC_LexParse, MC_YaccParse, MC_MarkMap over documents generated by lib/genyacc.py, lib/genlex.py, lib/p_hdr.py and their mutants"),
+ dict(name="tlc-width", path="/verif/spec/Width.tla", kind_free_text="Width.tla, MC_Width, TraceWidth; WidthApa.tla (Apalache), WidthProof.tla (TLAPS)"),
+ dict(name="tlc-src", path="/verif/spec/YaccSrc.tla", kind_free_text="YaccSrc.tla, LexSrc.tla, Totality.tla, Header.tla, LexParse.tla, YaccParse.tla, MarkMap.tla with trace specifications TraceYSrc, TraceLSrc, TraceTotal, TraceDiag, TraceHeader, TraceLexParse, TraceYaccParse, TraceMarkMap and bounded models MC_Header, MC_LexParse, MC_YaccParse, MC_MarkMap over documents generated by lib/genyacc.py, lib/genlex.py, lib/p_hdr.py and their mutants"),
  dict(name="tlc-ctrt", path="/verif/spec/TraceCTRT.tla", kind_free_text="generated crate (lib/p_ctrt.py) + TraceCTRT.tla"),
- dict(name="tlc-pipe", path="/verif/spec/Pipeline.tla", kind_free_text="Pipeline.tla, OnceInit.tla, TracePipe.tla"),
+ dict(name="tlc-pipe", path="/verif/spec/Pipeline.tla", kind_free_text="Pipeline.tla, OnceInit.tla, OnceInitProof.tla (TLAPS), TokenMap.tla, TracePipe.tla"),
 ]
 LEVEL = {"C13": "translation_validation", "C14": "exploration"}
 LEVELTEXT = {
